@@ -9,6 +9,10 @@
     * `paxos_agreement_majority`     the same for the code's `f+1` of `2f+1` quorums and `impl Ord for Ballot`
     * `paxos_rules_are_spec_guards`  the decision rules evaluated with the operators re-extracted from paxos.rs on
                                      this run (Gen/PaxosTable.lean) ARE the guards of the abstract transitions
+    ASSUMED by the abstract protocol and NOT tied to paxos.rs by a theorem or an executable tie (reviewers doubt
+    both for the code as written, see checks/C40.py level_note): (1) a proposer sends one value per (ballot, slot)
+    (guard of `sendP2a`); (2) a quorum of `Ok` replies comes from f+1 DISTINCT acceptors (`isQ`; the code's
+    `collect_quorum*` counts responses per key and p1a is re-broadcast with an unchanged ballot).
   RAFT (the system whose per-member transition is `raftStep` = the Lean transcription of `raft_step`, diffed
   against the real function on every run; executions = arbitrary sequences of `raft_step` calls on arbitrary
   batches of sent messages, timers, requests):
@@ -21,10 +25,12 @@
   STATE MACHINE SAFETY (the property clause for Raft) - FULL:
     * `raft_leader_completeness`     RAFT §5.4.3 on the executions instrumented with the canonical history
                                      variables `tl` / `cm` (per-term leader log / leader commit index)
+    * `raft_emitted_streams_never_diverge`  the property as stated, for the `committed` output streams of all members
     * `raft_committed_prefix_agreement`  in every state reached by any sequence of `raft_step` calls the committed
                                      prefixes of any two members agree position by position
+    * `raft_step_never_panics`       the two `assert!`s of `raft_step` never fire in any execution
     * `raft_agreement_of_leader_completeness`, `raft_commit_provenance`, `raft_no_retraction`,
-      `raft_committed_prefix_agreement_partial` (commit <= log length, emitted <= commit)
+      `raft_commit_index_bounds` (commit <= log length, emitted <= commit)
 -/
 import HvProto.Lemmas.PaxosInst
 import HvProto.Lemmas.RaftRefine
@@ -32,6 +38,8 @@ import HvProto.Lemmas.RaftLog
 import HvProto.Lemmas.RaftMatch
 import HvProto.Lemmas.RaftCommit
 import HvProto.Lemmas.RaftLC3
+import HvProto.Lemmas.RaftEmit
+import HvProto.Lemmas.RaftNoPanic
 
 namespace HvProto.C40
 open HvProto
@@ -191,7 +199,7 @@ example : Reach 3 sc ∧ sc.elected 0 1 ∧ (sc.nodes 0).role = .leader ∧
   exact Or.inr ⟨rfl, by decide⟩
 end RaftExample
 
-/-! ### partial clauses -/
+/-! ### state machine safety -/
 
 /-- State machine safety: the committed prefixes of any two members are prefix-comparable
     (no two members commit different entries at the same log position). -/
@@ -217,11 +225,11 @@ theorem raft_log_wellformed (n : Nat) (s : Raft.Sys) (h : Raft.Reach n s) :
   have hw := Raft.aux_winv_reach n s h
   exact ⟨fun v => hw.logWf v, fun dst frm t l p pt es lc hh => hw.aeWf dst frm t l p pt es lc hh⟩
 
-/-- PARTIAL towards `RaftCommittedPrefixAgreementStatement`: in every reachable state the committed
+/-- In every reachable state the committed
     prefix of every member really is a prefix of its log (`commit_index <= log.len()`, so the emission loop
     never indexes out of bounds and the truncation guard protects it), and what was emitted is committed
     (`emitted_index <= commit_index`). -/
-theorem raft_committed_prefix_agreement_partial (n : Nat) (s : Raft.Sys) (h : Raft.Reach n s) (v : Nat) :
+theorem raft_commit_index_bounds (n : Nat) (s : Raft.Sys) (h : Raft.Reach n s) (v : Nat) :
     (s.nodes v).commitIndex ≤ (s.nodes v).log.length ∧ (s.nodes v).emittedIndex ≤ (s.nodes v).commitIndex := by
   have hw := Raft.aux_winv_reach n s h
   exact ⟨hw.commitLe v, hw.emitLe v⟩
@@ -305,6 +313,42 @@ theorem raft_committed_prefixes_comparable (n : Nat) (s : Raft.Sys) (h : Raft.Re
     simpa using h1
   · simp only [List.getElem?_take, hi, if_false]
 
+/-- **The property as stated**, for the `committed` output streams: take any execution of the implementation
+    (`Raft.ReachOut`: any sequence of `raft_step` calls, recording for every member the sequence `hist v` of
+    entries it has emitted on its `committed` output so far).  Then (1) what a member has emitted is exactly the
+    first `emitted_index` entries of its log, in order and without gaps, and (2) no two members have emitted
+    different entries at the same position. -/
+theorem raft_emitted_streams_never_diverge (n : Nat) (s : Raft.Sys) (hist : Nat → List Raft.Entry)
+    (h : Raft.ReachOut n s hist) :
+    (∀ v, hist v = (s.nodes v).log.take (s.nodes v).emittedIndex) ∧
+    ∀ a b i, i < (hist a).length → i < (hist b).length → (hist a)[i]? = (hist b)[i]? := by
+  obtain ⟨hr, hh⟩ := Raft.aux_hist_is_prefix n s hist h
+  refine ⟨hh, fun a b i ha hb => ?_⟩
+  have hw := Raft.aux_winv_reach n s hr
+  rw [hh a] at ha ⊢
+  rw [hh b] at hb ⊢
+  simp only [List.length_take] at ha hb
+  have ea := hw.emitLe a
+  have eb := hw.emitLe b
+  have la := hw.commitLe a
+  have lb := hw.commitLe b
+  have h1 := raft_committed_prefix_agreement n s hr a b i (by omega) (by omega)
+  simp only [List.getD_eq_getElem?_getD] at h1
+  have ia : i < (s.nodes a).emittedIndex := by omega
+  have ib : i < (s.nodes b).emittedIndex := by omega
+  simp only [List.getElem?_take, ia, ib, if_true]
+  rw [List.getElem?_eq_getElem (by omega), List.getElem?_eq_getElem (by omega)] at h1 ⊢
+  simpa using h1
+
+/-- The two protocol-violation `assert!`s of `raft_step` ("two leaders share term", "truncate committed entries")
+    never fire: in every reachable state, every `raft_step` call by any member on any batch of messages that were
+    sent to it returns normally.  So the `= some r` side condition of an execution step never excludes a call,
+    and no member ever stops because of a panic. -/
+theorem raft_step_never_panics (n : Nat) (s : Raft.Sys) (h : Raft.Reach n s) (m : Nat) (hm : m < n) (el hb : Bool)
+    (reqs : List Nat) (msgs : List (Nat × Raft.Rpc)) (hmsgs : ∀ sm ∈ msgs, s.net ⟨m, sm.1, sm.2⟩) :
+    ∃ r, Raft.raftStep (s.nodes m) (Raft.mkInput n m el hb reqs msgs) = some r :=
+  Raft.aux_raftStep_some n s h m hm el hb reqs msgs hmsgs
+
 /-! non-vacuity of the commit statements: the execution of `RaftExample` continued by a heartbeat of the
     leader, the follower's acceptance and the leader's commit - six `raft_step` calls after which member 0 has
     committed position 1 and member 1 holds the same entry -/
@@ -342,6 +386,24 @@ example : Reach 3 sf ∧ (sf.nodes 0).commitIndex = 1 ∧ (sf.nodes 0).role = .l
     by rfl, by rfl, by rfl, by rfl⟩
   intro sm h; simp at h; subst h
   exact Or.inr ⟨rfl, by decide⟩
+/-- non-vacuity of `raft_emitted_streams_never_diverge`: the same six calls as a `ReachOut` execution; member 0
+    has emitted the entry it committed -/
+example : ∃ hist, ReachOut 3 sf hist ∧ hist 0 = [{ msg := 7, term := 1, index := 1 }] := by
+  have net1 : ∀ sm ∈ [(0, Rpc.requestVote 1 0 0)], sa.net ⟨1, sm.1, sm.2⟩ := by
+    intro sm h; simp at h; subst h; exact Or.inr ⟨rfl, by decide⟩
+  have net2 : ∀ sm ∈ [(1, Rpc.requestVoteResponse 1)], sb.net ⟨0, sm.1, sm.2⟩ := by
+    intro sm h; simp at h; subst h; exact Or.inr ⟨rfl, by decide⟩
+  have net4 : ∀ sm ∈ [(0, ae1)], sd.net ⟨1, sm.1, sm.2⟩ := by
+    intro sm h; simp at h; subst h; exact Or.inr ⟨rfl, by decide⟩
+  have net5 : ∀ sm ∈ [(1, Rpc.appendEntriesReply 1 true 1)], se.net ⟨0, sm.1, sm.2⟩ := by
+    intro sm h; simp at h; subst h; exact Or.inr ⟨rfl, by decide⟩
+  have r1 := ReachOut.step 0 true false [] [] ra .init (by decide) (by intro sm h; cases h) aux_ha
+  have r2 := ReachOut.step 1 false false [] _ rb r1 (by decide) net1 aux_hb
+  have r3 := ReachOut.step 0 false false [7] _ rc r2 (by decide) net2 aux_hc
+  have r4 := ReachOut.step 0 false true [] [] rd r3 (by decide) (by intro sm h; cases h) aux_hd
+  have r5 := ReachOut.step 1 false false [] _ re r4 (by decide) net4 aux_he
+  have r6 := ReachOut.step 0 false false [] _ rf r5 (by decide) net5 aux_hf
+  exact ⟨_, r6, by rfl⟩
 end RaftExample
 
 end HvProto.C40
